@@ -106,6 +106,12 @@ func VHSetStatement() {
 		rv = vArbValue("rhs", vChoose("rhs.kind", 3), 2)
 		rhs = &tree.Expression{Value: rv}
 	}
+	var rv0 variable.Value
+	lit := rv // what the script's syntax tree (or the storer) holds
+	if rv != nil {
+		rv0 = vCopyValue(rv)
+		rv = &rv0 // the table below reads the right-hand side as written, whatever the statement does to it
+	}
 	isDeclare := vBool("declare")
 	op := vInt("op")
 	var err error
@@ -117,6 +123,9 @@ func VHSetStatement() {
 	}
 	vReach("executed")
 	after := st.GetValues()
+	if lit != nil && !rhsIsRead {
+		vAssert(vValueEq(*lit, rv0), "a statement does not rewrite the literal it assigns (the script is not changed by running it)")
+	}
 
 	// ---- the table ----
 	wantErr := false
